@@ -17,26 +17,26 @@ CHECKS = {
  "C11": ("exploration", "5 C11", "model-map monitor + storage-log grammar: post-state of DELETE vs prior minus the keys of the engine's own SELECT; no Put events; both strategies and multi-batch deletes gated; plus sequential put/remove/delete/select histories against a model map",
          "Key set taken from the engine's own select on a copy of the prior state (the property is that equivalence). Snapshot cursors.",
          "runtime monitoring: model map and event-log grammar, single statements and histories"),
- "C12": ("exploration", "5 C12", "model-map monitor + storage-log grammar: written pairs/keys equal the reference-evaluated ones, once, in order; zero writes when an expression fails (failing expression placed at every position); extra polls return nothing; follow-up select observes the write",
+ "C12": ("exploration", "5 C12", "model-map monitor + storage-log grammar: written pairs/keys equal the reference-evaluated ones, once, in order; zero writes when an expression fails (failing expression placed at every position); extra polls return nothing; follow-up select observes the write; put/remove roundtrips over the same key expression",
          "Reference evaluator for key/value expressions; float renderings not generated.",
          "runtime monitoring: event-log grammar and model map with injected evaluation failures"),
- "C13": ("fault_enumeration", "5 C13", "fault injection at the Storage boundary: for every statement/store/mode the fault-free call sequence is recorded and EVERY call position is failed once; the log grammar forbids any call after the failed one and requires an error that errors.Is the injected one; SELECT / rejected statements must log no mutating call",
+ "C13": ("fault_enumeration", "5 C13", "fault injection at the Storage boundary: for every statement/store/mode the fault-free call sequence is recorded and EVERY call position is failed once; the log grammar forbids any call after the failed one and requires an error that errors.Is the injected one; SELECT / rejected statements must log no mutating call; a failed write plan polled again must stay stopped",
          "Single faults; caller stops polling at the first error; statement list + generated statements (not all programs).",
          "runtime monitoring: exhaustive single-fault enumeration with an event-log grammar"),
  "C16": ("exploration", "5 C16", "token-truth monitor + reference tokenizer on EVERY string up to a length bound over two token-relevant alphabets (exhaustive), plus the spacing law on generated token streams rendered with every subset of optional blanks",
          "Blank is the only separator; unterminated quotes / lone ^ ~ are not judged. Trusted base: 60-line reference tokenizer.",
          "runtime monitoring: exhaustive bounded enumeration against a reference tokenizer"),
- "C18": ("exploration", "5 C18", "storage-log grammar: over the event log of a full drain every key passed to Get or returned by Next must lie in the region of one pinning conjunct (+1 key beyond its end), point reads only for =/IN, no storage call for clauses unsatisfiable on their face; all canonical shapes enumerated",
+ "C18": ("exploration", "5 C18", "storage-log grammar: over the event log of a full drain every key passed to Get or returned by Next must lie in the region of one pinning conjunct (+1 key beyond its end), point reads only for =/IN, no storage call for clauses unsatisfiable on their face; all canonical shapes enumerated, each inside varying statement forms (LIMIT, ORDER BY, aggregate, delete), over a dense and a sparse store, and re-run with every Seek call failing once",
          "Canonical shapes with the key on the left, literals from a 6-literal pool, one dense store.",
          "runtime monitoring: event-log grammar over exhaustively enumerated key-pinning shapes"),
 
  "C04": ("exploration", "5 C04", "differential runtime monitor: every generated expression is parsed twice, one copy rewritten by ExpressionOptimizer.Optimize(), and both evaluated with Execute and ExecuteBatch on a store; kind+value must agree wherever the original evaluates; second witness: the full query through BuildPlan vs the reference evaluator. Exhaustive depth-1 and one-sided depth-2 numeric trees, sampled comparisons / Boolean constants / re-association chains / constant calls",
          "Floats are dyadic so equality is exact; -0 and +0 are the same value; str() of floats not generated (rendering undocumented).",
          "runtime monitoring: before/after-rewrite differential on the real evaluator"),
- "C05": ("exploration", "5 C05", "differential runtime monitor over {aliased text, alias-expanded text} x {cache on, off} x {row, batch}: all eight outcomes must agree; every row as wide as FieldNameList(); columns of core-language fields equal the reference evaluator on that row's pair; gates on cache hits and on rejected rows between accepted ones",
+ "C05": ("exploration", "5 C05", "differential runtime monitor over {aliased text, alias-expanded text} x {cache on, off} x {row, batch}: all eight outcomes must agree; every row as wide as FieldNameList(); columns of core-language fields equal the reference evaluator on that row's pair; also duplicate field names, names/keys with colliding concatenations, list-valued named fields, ORDER BY on name-defined fields; gates on cache hits and on rejected rows between accepted ones",
          "A text the checker rejects is not judged (alias resolution positions); ORDER BY/GROUP BY keep alias names in the expanded text.",
          "runtime monitoring: eight-way configuration differential plus reference evaluator"),
- "C06": ("exploration", "5 C06", "process-level crash monitor: recover() around plan/explain/drain/render in worker processes whose death (fatal stack overflow) the coordinator attributes to the journalled case; storage-call budget and row cap as bounded-progress monitors; watchdog with solo confirmation. Workload: grammar-generated statements, token/byte mutants, hostile corpus, over 9 store families, both modes; every error rendered after BindQuery with 3 paddings",
+ "C06": ("exploration", "5 C06", "process-level crash monitor: recover() around plan/explain/drain/render in worker processes whose death (fatal stack overflow) the coordinator attributes to the journalled case; storage-call budget and row cap as bounded-progress monitors; watchdog with solo confirmation. Workload: grammar-generated statements, token/byte mutants, hostile corpus, over 9 store families, both modes; every error rendered after BindQuery with 3 paddings; plus a coverage-guided stage (go native fuzzing over the same monitors, fixed number of executions, every crasher re-run alone in a fresh process before it counts)",
          "'Loops forever' is restated as bounded progress (call budget, row cap, 30 s watchdog). Inputs up to a few KB.",
          "runtime monitoring: crash/hang/budget monitors over generated, mutated and hostile inputs"),
  "C07": ("exploration", "5 C07", "reference-comparator monitor: ordered rows must be a multiset-permutation of the same statement without ORDER BY and adjacent rows non-decreasing under an independent comparator chosen by declared field type; lone `order by key asc` must leave the natural order; plain and aggregate statements, 1..3 keys, all asc/desc/implicit combinations, both modes",
@@ -48,7 +48,7 @@ CHECKS = {
  "C10": ("exploration", "5 C10", "reference re-implementation monitor: each scalar function and list/JSON indexing evaluated by refeval from its README description; exhaustive over unary templates x a text pool with constant and row-dependent arguments in both modes; sampled list constructors, distances (incl. unequal lengths must fail), JSON navigation, row-dependent separators",
          "Arguments whose reading the docs leave open are not judged. Float results compared with relative tolerance 1e-12; decimal text read to the nearest double.",
          "runtime monitoring: reference re-implementation over exhaustive argument pools"),
- "C14": ("exploration", "5 C14", "typed-grammar monitor: well-typed generated statements must be accepted and execute without error in both modes; single-fault mutants (operand types, non-Boolean WHERE/!, forbidden key/value, unknown function, arity +-1) at 11 syntactic positions must make BuildPlan fail with an EMPTY storage event log",
+ "C14": ("exploration", "5 C14", "typed-grammar monitor: well-typed generated statements must be accepted and execute without error in both modes; single-fault mutants (operand types, non-Boolean WHERE/!, forbidden key/value, unknown function, arity +-1) at 15 syntactic positions (incl. below field accesses, in folded-away operands, through duplicated names, aggregate parameters) must make BuildPlan fail with an EMPTY storage event log",
          "Typing table from README/spec. Function argument types are not part of the property. Data-dependent failures excluded by construction.",
          "runtime monitoring: accept/reject oracle with zero-call storage-log grammar"),
  "C15": ("exploration", "5 C15", "structural AST monitor: the generator owns the tree; Parser.Parse's AST is compared structurally with it for every flat operator sequence up to length 3 (quick) / 4 (thorough) over 18 operator spellings (exhaustive) and for random trees under minimal/random/full parenthesisation and random case, in every expression slot; then the canonical String() is re-parsed and must give the same tree and the same rendering",
@@ -58,7 +58,7 @@ CHECKS = {
  "C17": ("exploration", "5 C17", "error-position monitor: every positional error from BuildPlan/execution is checked for range, and (plan time) against the token starts of the C16 reference tokenizer; after BindQuery the three-line rendering is checked by a caret-alignment checker (the window must be the query text placed so that the caret column marks byte Pos, markers must tell the truth) for paddings 0, 7, 20; single-edit corruptions, late faults in long queries, execution-time errors, leading/trailing blanks",
          "Token starts from the reference tokenizer (not the lexer under test). Multi-line and blank queries are not judged.",
          "runtime monitoring: offset-range/token-start oracle and caret-alignment checker"),
- "C19": ("exploration", "5 C19", "Go race detector (harness built with -race; every DATA RACE block whose two accesses are inside package kvql is a violation) plus a differential monitor: each goroutine's outcomes (rows, error text, rendered error, Explain) must equal the same statements' solo outcomes; 2..16 goroutines, GOMAXPROCS 2..16, private / shared read-only / shared mutable stores with disjoint key prefixes, PRNG yields and sleeps at the storage boundary; gates on overlap and on distinct global event orders",
+ "C19": ("exploration", "5 C19", "Go race detector (harness built with -race; every DATA RACE block whose two accesses are inside package kvql is a violation) plus a differential monitor: each goroutine's outcomes (rows, error text, rendered error, Explain) must equal the same statements' solo outcomes; 2..16 goroutines, GOMAXPROCS 2..16, private / shared read-only / shared mutable stores with disjoint key prefixes, PRNG yields and sleeps at the storage boundary; the stores hand out slices of their own buffers (shared backing arrays, canary bytes in the spare capacity) that are checked for damage after every round; gates on overlap and on distinct global event orders",
          "Schedules are sampled, not enumerated; the detector sees only accesses that happen. Package-level configuration is set before the goroutines start.",
          "runtime monitoring: race detector + concurrent-vs-solo differential under stress"),
 }
